@@ -410,6 +410,9 @@ func features(ctl string, args []ref.Val) []string {
 			}
 		case "arg":
 			n, isInt := val.Int()
+			if val.Oct && strings.ContainsRune("rp[", d.Ch) {
+				fs["octet-arg"] = true
+			}
 			switch d.Ch {
 			case 'r':
 				if isInt && len(d.Params) == 0 && !d.At {
@@ -566,6 +569,9 @@ func shape(ctl string, args []ref.Val) string {
 			}
 			switch p.Kind {
 			case 'n':
+				if p.Plus {
+					b.WriteByte('+')
+				}
 				b.WriteByte('n')
 			case 'c':
 				b.WriteString("'c")
@@ -615,7 +621,9 @@ func shape(ctl string, args []ref.Val) string {
 		switch a.K {
 		case "i":
 			n, _ := a.Int()
-			if n.IsInt64() {
+			if a.Oct {
+				b.WriteByte('b')
+			} else if n.IsInt64() {
 				b.WriteByte('i')
 			} else {
 				b.WriteByte('I')
@@ -714,7 +722,7 @@ var featurePriority = []string{
 	"nested-same-block-then-directive", "clause-separator-then-directive", "tilde-with-param-in-block", "caret", "radix-R",
 	"v-nil-on-simple-directive", "recursive-nil-arglist", "conditional-bignum", "tab-colinc-0", "tab-colinc",
 	"tab-default-colnum", "tab-in-block", "fresh-line-in-block", "english-lowest-group-000", "english-quintillion",
-	"english-round-tens", "english-ordinal-hundred", "non-integer-arg", "princ-of-empty-string", "case-word", "non-ascii",
+	"english-round-tens", "english-ordinal-hundred", "octet-arg", "non-integer-arg", "princ-of-empty-string", "case-word", "non-ascii",
 }
 
 func signature(ctl string, args []ref.Val, v verdict) string {
